@@ -146,7 +146,7 @@ def c04(ctx):
 from . import e2e
 import glob
 
-COL = {name: i for i, name in enumerate(['agree', 'C01', 'C03', 'C04', 'C05', 'C11', 'C12', 'C13', 'C01struct', 'C03values', 'C06', 'C08'])}
+COL = {name: i for i, name in enumerate(['agree', 'C01', 'C03', 'C04', 'C05', 'C11', 'C12', 'C13', 'C01struct', 'C03values', 'C06', 'C08', 'C13order'])}
 
 
 def load_corpus(pid):
@@ -212,7 +212,7 @@ def shrink(ctx, req, still_fails, budget=40):
 
 
 def method_check(ctx, col, gens, n_quick, n_thorough, rule, agree_col='agree', agree_scope=None,
-                 finding_facts=None, code2_finding=None, excuse=None, search_gens=None):
+                 finding_facts=None, code2_finding=None, excuse=None, search_gens=None, also_cols=()):
     """gens: list of (weight, generator(rnd) -> request). col: checker column name.
     agree_col: which correspondence column ties the model to the code for this property."""
     pid = ctx.pid
@@ -255,6 +255,10 @@ def method_check(ctx, col, gens, n_quick, n_thorough, rule, agree_col='agree', a
             ctx.violation('checker %s_ok rejects what the implementation returned' % col,
                           {'request': small, 'original_request': req, 'response': r3.get('resp') or r3.get('err'),
                            'final_state': r3.get('evalInput'), 'checker': 'Check/%s.v' % col[:3]}, facts)
+        for ec in also_cols:
+            if len(v) > COL[ec] and v[COL[ec]] != 0:
+                ctx.violation('checker %s rejects what the implementation returned' % ec,
+                              {'request': req, 'response': res.get('resp'), 'final_state': res.get('evalInput'), 'checker': ec}, facts)
         if v[ai] != 0 and (agree_scope is None or agree_scope(req)):
             if excuse and excuse(req, res, v):
                 ctx.count('correspondence/excused')
@@ -366,7 +370,7 @@ def c05_matrices(ctx):
 def c05(ctx):
     ctx.before_finish = c05_matrices
     return method_check(
-        ctx, 'C05', [(1, gen_method('electreIII'))], 300, 6000,
+        ctx, 'C05', [(3, gen_method('electreIII')), (1, (lambda rnd: gen.biased_request(rnd, method='electreIII', prob_mix=False)))], 300, 6000,
         'random electreIII requests: gain and cost criteria, every presence pattern of q<p<v, ties on criteria and identical '
         'alternatives, default and custom distillation functions; plus raw credibility matrices over {0, 1/4, .., 1} of size 2-6 through the '
         'exported RankAscending / RankDescending (ex-aequo best sets needing inner distillations, classes removed from the middle); '
@@ -377,7 +381,7 @@ def c05(ctx):
 @check('C11')
 def c11(ctx):
     return method_check(
-        ctx, 'C11', [(1, gen_method('majorityHeuristic'))], 300, 6000,
+        ctx, 'C11', [(2, gen_method('majorityHeuristic')), (1, (lambda rnd: gen.biased_request(rnd, method='majorityHeuristic', prob_mix=False)))], 300, 6000,
         'random majority requests: all four draw policies, seeded order, three positions of currentChoice, value ties within 1e-6, '
         'equal and mixed weights', agree_col='agree')
 
@@ -385,7 +389,7 @@ def c11(ctx):
 @check('C12')
 def c12(ctx):
     return method_check(
-        ctx, 'C12', [(1, gen_method('aspectEliminationHeuristic'))], 300, 6000,
+        ctx, 'C12', [(2, gen_method('aspectEliminationHeuristic')), (1, (lambda rnd: gen.biased_request(rnd, method='aspectEliminationHeuristic', prob_mix=False)))], 300, 6000,
         'random aspect-elimination requests: explicit thresholds and both generated series (dyadic parameters landing on bounds), '
         'gain and cost criteria, shuffled order, single alternatives; correspondence claimed for pairwise distinct weights',
         agree_col='agree', excuse=not_tied_aspect)
@@ -394,9 +398,9 @@ def c12(ctx):
 @check('C13')
 def c13(ctx):
     return method_check(
-        ctx, 'C13', [(1, gen_method('satisfactionHeuristic'))], 300, 6000,
+        ctx, 'C13', [(2, gen_method('satisfactionHeuristic')), (1, (lambda rnd: gen.biased_request(rnd, method='satisfactionHeuristic', prob_mix=False)))], 300, 6000,
         'random satisfaction requests: currentChoice absent / considered / known-only, explicit thresholds and both generated series, '
-        'levels nobody meets, cost criteria, shuffled order', agree_col='agree')
+        'levels nobody meets, cost criteria, shuffled order, now and then 13-22 alternatives', agree_col='agree', also_cols=('C13order',))
 
 
 # -------------------------------------------------------------------------------------------------
@@ -543,15 +547,15 @@ def c16(ctx):
                 'requests over all methods with preference reversal alone, after and before other biases; all orderings and ratios, '
                 'with and without declared ranges, considered set equal to / smaller than the known set; one evaluation = one traced '
                 'application of the bias; distinct = (method, ordering, sizes, neighbouring biases)',
-                agree_names=['preferenceReversal'])
-    return ctx.finish('see rule in evidence', './check C16') if False else ctx.finish(
+                agree_names=['preferenceReversal'], search_gens=[(1, seq_with('preferenceReversal'))])
+    return ctx.finish(
         'traced applications of preferenceReversal inside random bias sequences over all methods (all orderings, ratios, declared and '
         'observed ranges, considered = / subset of known); distinct = (method, ordering, sizes, bias sequence)', './check C16')
 
 
 @check('C17')
 def c17(ctx):
-    stage_check(ctx, 'C17', ['fatigue'], [(1, seq_with('fatigue'))], 200, 4000, '', agree_names=['fatigue'])
+    stage_check(ctx, 'C17', ['fatigue'], [(1, seq_with('fatigue'))], 200, 4000, '', agree_names=['fatigue'], search_gens=[(1, seq_with('fatigue'))])
     return ctx.finish(
         'traced applications of fatigue inside random bias sequences over all methods: const and expFromZero ratio (incl. 0 and negative), '
         'values of any sign, bounding off / 0.5 / 1 / 3 / non-negative, heuristics with a current choice; distinct = (method, function, '
@@ -562,7 +566,8 @@ def c17(ctx):
 def c18(ctx):
     stage_check(ctx, 'C18', ['criteriaConcealment', 'criteriaMixing'],
                 [(1, seq_with('criteriaConcealment')), (1, seq_with('criteriaMixing'))], 240, 4000, '',
-                agree_names=['criteriaConcealment', 'criteriaMixing'])
+                agree_names=['criteriaConcealment', 'criteriaMixing'],
+                search_gens=[(1, seq_with('criteriaConcealment')), (1, seq_with('criteriaMixing'))])
     return ctx.finish(
         'traced applications of criteriaConcealment / criteriaMixing inside random bias sequences over all methods: three reference '
         'strategies, scaling in {-1, 0.5, 1, 3}, mixing ratios 0, 0.5, 1, bounding options, 1..5 criteria, repeated application; '
@@ -571,7 +576,7 @@ def c18(ctx):
 
 @check('C19')
 def c19(ctx):
-    stage_check(ctx, 'C19', ['anchoring'], [(1, seq_with('anchoring'))], 200, 4000, '', agree_names=['anchoring'])
+    stage_check(ctx, 'C19', ['anchoring'], [(1, seq_with('anchoring'))], 200, 4000, '', agree_names=['anchoring'], search_gens=[(1, seq_with('anchoring'))])
     return ctx.finish(
         'traced applications of anchoring inside random bias sequences over all methods: 1-3 anchoring alternatives with mixed '
         'coefficients, ideal and nadir, linear / exponential / zero gain and loss, inline and newCriterion appliers with all options; '
@@ -791,7 +796,7 @@ def c15(ctx):
         return gen.biased_request(rnd, names=['criteriaOmission'] + rest, prob_mix=False)
     infos, verd, reqs, ress = stage_check(ctx, 'C15', ['criteriaOmission'],
                                           [(2, seq_with('criteriaOmission')), (2, first_omission)], 260, 5000, '',
-                                          agree_names=['criteriaOmission'])
+                                          agree_names=['criteriaOmission'], search_gens=[(1, seq_with('criteriaOmission'))])
     # the decision equals the one for the request with the omitted criteria deleted
     done = 0
     for req, res in zip(reqs, ress):
@@ -1302,6 +1307,22 @@ def hostile_bodies(rnd, req):
     return out
 
 
+def stress_valid(rnd, req):
+    """valid requests that stress termination: ELECTRE distillation functions that pass validation but vanish at a credibility
+    the distillation reaches (identical / dominating alternatives give credibility exactly 1)"""
+    out = []
+    alts = json.loads(json.dumps(req['knownAlternatives']))[:4]
+    if len(alts) < 2:
+        return out
+    alts[1]['criteria'] = dict(alts[0]['criteria'])
+    crits = [{'id': c['id'], 'type': c.get('type', 'gain')} for c in req['criteria']]
+    for dist in ({'a': 0, 'b': 0}, {'a': -1, 'b': 1}, {'a': -0.5, 'b': 0.5}, {'a': 0, 'b': 1.0}, {'a': -0.25, 'b': 0.25}):
+        out.append({'preferenceFunction': 'electreIII', 'knownAlternatives': alts, 'choseToMake': [a['id'] for a in alts], 'criteria': crits,
+                    'methodParameters': {'electreCriteria': {c['id']: {'k': 1.0, 'q': {'a': 0, 'b': 0.5}, 'p': {'a': 0, 'b': 1.0}} for c in crits},
+                                         'electreDistillation': dist}, 'biases': [], 'biasApplyRandomSeed': 1})
+    return out
+
+
 @check('C20')
 def c20(ctx):
     ctx.check_proofs()
@@ -1375,6 +1396,9 @@ def c20(ctx):
                     known = gen.METHODS if name == 'unknown method' else gen.BIASES
                     if not all(k in j2.get('error', '') for k in known):
                         ctx.violation('the error for an %s does not list the available names' % name, {'request': r, 'answer': j2}, {'what': name})
+            for r in stress_valid(rnd, req):
+                st4, _ = shot(json.dumps(r).encode(), 'valid request stressing termination', 200, r)
+                ctx.signatures.add(('stress', json.dumps(r['methodParameters']['electreDistillation']), st4))
             hb = hostile_bodies(rnd, req)
             for b in (hb if not ctx.quick else rnd.sample(hb, min(len(hb), 16))):
                 st3, _ = shot(b, 'hostile body')
